@@ -32,6 +32,20 @@ def he_specs(ctx):
     return specs
 
 
+def configured_beta_specs(ctx):
+    """search_acq_fcn with a user-supplied annealing schedule sqrt_beta(t, D) (and a fixed scalar) instead of the built-in one."""
+    from .. import gen
+    rng = ctx.sub_rng("c15beta")
+    specs = []
+    for c in ("lambda t, d: np.sqrt(0.4 * np.log(d * t ** 2 * 1.6449 / 0.1))", "lambda t, d: 3.0 / np.sqrt(t)", "1.5") + \
+            (() if ctx.quick else ("lambda t, d: 1.0 + 0.01 * t", "lambda t, d: np.log(t + d)", "0.25")):
+        sp = gen.make_spec(rng, D=rng.choice([1, 2]), mode=rng.choice(["det", "decl"]), geom="box", cons=None, opt_loc="inside", target="quad")
+        sp["options"] = {"n_search": 32, "max_fun_evals": 40 if sp["mode"] == "det" else 70}
+        sp["np_options"] = {"search_acq_fcn": f"('acq_LCB', {c})"}
+        specs.append(sp)
+    return specs
+
+
 def far_basin_specs(ctx):
     """Hard bounds far wider than the plausible box, optimum and start ~1e4 plausible half-widths out, narrow basin: the incumbent has large
     coordinates in length-scale units while the logged points around it are close together (fine mesh)."""
@@ -52,6 +66,7 @@ def checks(ctx, rep):
     if getattr(ctx, "_c15_extra", True) and not getattr(ctx, "_replaying", False):
         runlevel.with_extra(ctx, "c15he", lambda: he_specs(ctx))
         runlevel.with_extra(ctx, "c15far", lambda: far_basin_specs(ctx))
+        runlevel.with_extra(ctx, "c15beta", lambda: configured_beta_specs(ctx))
         # runs with LinAlgError injected into GP.fit (C16's pool): the surrogate must stay conditioned on the selected set through the retries
         from . import c16
         _meta, faulted = c16.fault_pool(ctx)
@@ -198,8 +213,16 @@ def checks(ctx, rep):
             elif k == "ACQ":
                 stats["acq"] += 1
                 if e["sqrt_beta_arg"] not in (None, "None"):
-                    continue
-                sb = sqrt_beta(e["D"], e["fc"])
+                    # a configured confidence parameter (search_acq_fcn = ('acq_LCB', c) / ('acq_LCB', schedule)): the documented meaning of a
+                    # schedule is sqrt_beta(t, D) with t = func_count + 1, the same t as the built-in schedule uses
+                    cfg = (sp.get("np_options") or {}).get("search_acq_fcn") if e["site"] == "es" else None
+                    if not cfg:
+                        continue
+                    par = eval(cfg, {"np": np})[1]
+                    sb = float(par(e["fc"] + 1, e["D"])) if callable(par) else float(par)
+                    stats["configured_beta_acq"] = stats.get("configured_beta_acq", 0) + 1
+                else:
+                    sb = sqrt_beta(e["D"], e["fc"])
                 for z, mu, s in zip(e["z"], e["mu"], e["s"]):
                     if not all(math.isfinite(v) for v in (z, mu, s)):
                         continue
